@@ -40,7 +40,7 @@ PROFILES = {
     "refs": dict(
         property="C09",
         oracles=["O9"],
-        weights=_w(ref=12, hide_ref=4, touch_hidden_computed=2, hidden_computed_scenario=2, rename=7, select=5, drop=3, mutate=8, join=4, alias=3, collect=2, summarize=2, recompute=1, clone=1, union=0, mutate_w=1),
+        weights=_w(ref=12, hide_ref=4, touch_hidden_computed=2, hidden_computed_scenario=2, selfjoin=3, rename=7, select=5, drop=3, mutate=8, join=4, alias=3, collect=2, summarize=2, recompute=1, clone=1, union=0, mutate_w=1),
         mutate_kinds=EW,
         window_kinds=WIN,
         mutate_names=[4, 4, 3, 0],
@@ -84,7 +84,7 @@ PROFILES = {
         property="C10",
         oracles=["O10"],
         weights=_w(expr=6, pipe=3, apply_pipe=5, observe=8, collect_lazy=3, mutate=8, mutate_w=3, summarize=5, group_by=5, ungroup=2, ref=5, join=2, union=1, gc=1, arm_engine=1, select=2, rename=2, alias=2, collect=1, clone=1),
-        mutate_kinds=dict(ref=1, tag=2, pool=8, case=1),
+        mutate_kinds=dict(ref=1, tag=2, pool=8, case=1, litcast=2, lit=1),
         window_kinds=dict(agg=3, shift=2, rown=1, pool=6),
         summarize_kinds=dict(agg=3, pool=5, arith_agg=1),
         sessions=(2, 4),
@@ -121,7 +121,7 @@ PROFILES = {
         property="C19",
         oracles=["O19"],
         weights=_w(mutate=7, mutate_w=6, filter=5, arrange=4, slice_head=4, group_by=4, ungroup=1, summarize=5, select=3, rename=3, join=5, union=2, alias=4, ref=6, hide_ref=3, hidden_computed_scenario=2, touch_hidden_computed=2, collect=0, observe=3, uuid_regime=2),
-        mutate_kinds=dict(ref=2, tag=4, add=2, lit=1, case=2),
+        mutate_kinds=dict(ref=2, tag=4, add=2, lit=1, case=2, litcast=2),
         mutate_names=[4, 5, 2, 0],
         window_kinds=WIN,
         summarize_kinds=dict(agg=5, arith_agg=1),
